@@ -53,19 +53,25 @@ ASSUMPTIONS = [
     "gaussian backend, hbar = 2 (hbar dependence is C15)",
     "the gaussian backend models homodyne detection by a projection on a squeezed state of variance eps^2 = 4e-8: the "
     "reference conditions with the same added variance; the remaining O(eps^2) effect of the conjugate quadrature is "
-    "covered by the tolerance 1e-5 * (1 + largest covariance entry + largest |mean|) on conditional means / variances "
-    "(unchanged tree: < 2e-7 on thousands of cases); states returned without measurement: 1e-8 * (1 + scale)",
+    "covered by the tolerance 1e-6 * (1 + largest covariance entry + largest |mean|) on conditional means / variances "
+    "(observed on > 20000 cases with the .H / band-order repairs applied: < 6e-9, expected bound ~ eps^2 = 4e-8); states "
+    "returned without measurement: 1e-8 * (1 + scale) (observed < 1e-15)",
     "forced outcomes are arbitrary moderate numbers (|x| < 3), not samples: conditioning a Gaussian is defined for any value",
     "space_unroll(shots > 1) has no documented meaning (the register wraps around): only roll-back is checked for it",
     "Fock detection cannot be used with register shifting on the gaussian backend (the pulse is not removed; noted in "
     "the source): programs with MeasureFock are only run with shots=None or checked for roll-back",
     "multi-band programs are never space-unrolled with a state claim (the property restricts that to single-band programs)",
     "Program.locked and RegRef.val are not part of the roll-back comparison",
+    "crop: the crop value is taken from prog.get_crop_value() (its definition is not part of this property); crop is only "
+    "generated for single-band programs without MZgate / S2gate, whose compiled circuit has the beamsplitters of the source",
+    "when the engine is handed an already unrolled program it runs it with the shots it was unrolled with: the machine "
+    "passes the same number to run()",
 ]
 REQUIRED_LABELS = {"all": ["multi_band", "band_start_ge_8", "shots_gt1", "dagger_in_loop", "space_then_roll_then_space",
                            "integer_shift", "two_mode_across_bands"]}
 
 EPS2 = 0.0002 ** 2
+SELECT = 0.25  # post-selection value of measurements of kind "hselect" (only used to see whether unrolling keeps it)
 PI = float(np.pi)
 
 
@@ -166,7 +172,7 @@ def explicit_loop(ps, shots, drop_dagger=False, force_default_shift=False):
                 m = {"k": len(meas), "shot": s, "t": t, "band": band, "pulse": pulse[j], "phys": phys[j],
                      "angle": _num(ang, arrays, t), "kind": kind}
                 meas.append(m)
-                cmds.append(("meas", kind, [m["angle"]] if kind == "homodyne" else [], [pulse[j]], [phys[j]], False))
+                cmds.append(("meas", kind, [m["angle"]] if kind != "fock" else [], [pulse[j]], [phys[j]], False))
                 pulse[j] = nxt  # the measured pulse is gone; a fresh vacuum pulse takes its place
                 nxt += 1
             if shift == "default":
@@ -235,6 +241,8 @@ def build_tdm(ps):
         for band, kind, ang in ps["meas"]:
             if kind == "homodyne":
                 ops.MeasureHomodyne(p[ang[1]] if isinstance(ang, list) else ang) | q[st_[band]]
+            elif kind == "hselect":
+                ops.MeasureHomodyne(p[ang[1]] if isinstance(ang, list) else ang, select=SELECT) | q[st_[band]]
             else:
                 ops.MeasureFock() | q[st_[band]]
     return prog
@@ -335,7 +343,7 @@ def verify_chain(ctx, ps, shots, rec, what):
         return True, None
     values = [v for _, _, v in rec.mvn]
     chain, scale = chain_of(ex, values)
-    tol = 1e-5 * (1.0 + scale)
+    tol = 1e-6 * (1.0 + scale)
     worst = 0.0
     for k, ((mean, cov, _), (em, ev)) in enumerate(zip(rec.mvn, chain)):
         d = max(abs(mean[0] - em), abs(cov[0, 0] - ev))
@@ -521,7 +529,7 @@ def tdm_spec(draw, bands=None, meas_kinds=("homodyne",), max_body=6, wide=False,
     meas = []
     for b in order:
         kind = draw(st.sampled_from(list(meas_kinds)))
-        meas.append([b, kind, param("angle") if kind == "homodyne" else 0.0])
+        meas.append([b, kind, param("angle") if kind != "fock" else 0.0])
     if not arrays:
         arrays.append([draw(gen.angle()) for _ in range(T)])
     shift = "default"
@@ -581,6 +589,8 @@ def spec_labels(ps, shots=1):
         labs.append("bands_measured_out_of_order")
     if any(m[1] == "fock" for m in ps["meas"]):
         labs.append("fock_detection")
+    if any(m[1] == "hselect" for m in ps["meas"]):
+        labs.append("select_in_loop")
     if any(isinstance(x, list) for _, _, x in ps["meas"]):
         labs.append("angle_from_array")
     if any(g[0] in EXPR_GATES for g in ps["body"]):
@@ -736,7 +746,7 @@ def circuit_mismatch(prog, cmds):
     if len(prog.circuit) != len(cmds):
         return "generic", "circuit has %d commands, the explicit loop has %d" % (len(prog.circuit), len(cmds))
     for i, (cmd, c) in enumerate(zip(prog.circuit, cmds)):
-        name = c[1] if c[0] == "gate" else ("MeasureHomodyne" if c[1] == "homodyne" else "MeasureFock")
+        name = c[1] if c[0] == "gate" else ("MeasureFock" if c[1] == "fock" else "MeasureHomodyne")
         vals, phys, dg = c[2], c[4], c[5]
         op = cmd.op
         if op.__class__.__name__ != name:
@@ -751,6 +761,9 @@ def circuit_mismatch(prog, cmds):
             return "generic", "command #%d (%s) has parameters %r, expected %r" % (i, name, got, vals)
         if bool(getattr(op, "dagger", False)) != bool(dg):
             return "dagger", "command #%d (%s) has dagger=%s, the loop body has dagger=%s" % (i, name, getattr(op, "dagger", False), dg)
+        if c[0] == "meas" and getattr(op, "select", None) != (SELECT if c[1] == "hselect" else None):
+            return "select", "command #%d (%s) has select=%r, the loop body has select=%r" % (
+                i, name, getattr(op, "select", None), SELECT if c[1] == "hselect" else None)
     return None
 
 
@@ -772,6 +785,7 @@ class History:
         self.trace = []
         self.single = len(ps["N"]) == 1
         self.homodyne = all(m[1] == "homodyne" for m in ps["meas"])
+        self.select = any(m[1] == "hselect" for m in ps["meas"])
         self.rolled_after_unroll = False
         self.rejected_unroll_shots = None  # shots of a rejected unroll() since the last successful (space-)unroll / roll
         self.space_ids = None  # identity of the commands of the current space-unrolled circuit
@@ -820,6 +834,8 @@ class History:
             if mm is not None:
                 if mm[0] == "dagger":
                     self.fail("apply_op.dagger_dropped", "%s circuit: %s" % (kind, mm[1]))
+                if mm[0] == "select":
+                    self.fail("apply_op.select_dropped", "%s circuit: %s" % (kind, mm[1]))
                 if kind == "space" and self.rejected_unroll_shots == shots and self.space_ids == [id(c) for c in self.prog.circuit]:
                     self.fail("space_unroll.stale_circuit_after_rejected_unroll",
                               "space_unroll(%d) returned the circuit of the earlier space_unroll unchanged (%s): the rejected unroll(%d) "
@@ -920,7 +936,7 @@ class History:
         else:
             # space-unrolled run without measurements (single band; on an unrolled program `space_unroll=True` is
             # documented to be ignored, so that combination is not generated)
-            if not self.single or mode[0] == "unrolled" or (mode[0] == "space" and mode[1] != 1):
+            if not self.single or self.select or mode[0] == "unrolled" or (mode[0] == "space" and mode[1] != 1):
                 self.labels.add("run_skipped")
                 self.trace.pop()
                 return False
@@ -992,7 +1008,7 @@ def make_machine(ctx):
                     ctx.shrink_t0 = time.time()
                 raise
 
-        @initialize(ps=tdm_spec(meas_kinds=("homodyne", "homodyne", "homodyne", "fock"), max_body=4, max_T=4),
+        @initialize(ps=tdm_spec(meas_kinds=("homodyne",) * 6 + ("fock", "fock", "hselect"), max_body=4, max_T=4),
                     late=st.integers(0, 10))
         def start(self, ps, late):
             if ctx.failures and ctx.shrink_t0 is not None and time.time() - ctx.shrink_t0 > SHRINK_CAP_S[ctx.tier]:
@@ -1021,7 +1037,7 @@ def make_machine(ctx):
             self._do(["run", {"how": "sample", "shots": shots, "base": base}])
 
         @precondition(lambda self: self.h is not None and len(self.case["steps"]) >= self.late and self.h.single
-                      and self.h.mode in (("rolled",), ("space", 1)))
+                      and self.h.mode in (("rolled",), ("space", 1)) and not self.h.select)
         @rule()
         def run_space(self):
             self._do(["run", {"how": "space_state"}])
